@@ -503,7 +503,7 @@ func firstNonRace(recs []hist.Rec, cfg config) int64 { return 1 << 62 }
 func TestCheck(t *testing.T) {
 	run := report.New("C02", "exploration")
 	defer run.Finish(t)
-	run.Rule("concurrent histories of T in 2..8 clients x K in 4..12 operations over 1..3 keys (mix of Create/Get/Put/CasByVersion/Delete/GetMany/PutMany with unique values and occasional re-writes of identical bytes, inmem: writes of records whose expiry has already passed (logically absent, physically awaiting the lazy purge), writes carrying an expiry far in the future or a few milliseconds ahead (it passes during the history: from then on the key may be found absent, and a key seen absent never comes back without a write), hostile Version fields and stale / made-up CAS versions; flavours: mixed, racing creators, racing CAS on one version) recorded at the client boundary and checked (1) by porcupine against the per-key sequential model, (2) for outcomes outside the documented set, (3) for injectivity of version -> write, (4) Redis, at the quiescent end of every history: records without an expiry survive, unchanged, a jump of the server clock past the expiries of the other writes (the expiry of one write must not stick to another). distinct = distinct outcome words (client, operation, key, outcome in call order) among histories in which operations of different clients on one key really overlapped in time")
+	run.Rule("concurrent histories of T in 2..8 clients x K in 4..12 operations over 1..3 keys (mix of Create/Get/Put/CasByVersion/Delete/GetMany/PutMany with unique values and occasional re-writes of identical bytes, inmem: writes of records whose expiry has already passed (logically absent, physically awaiting the lazy purge), writes carrying an expiry far in the future or a few milliseconds ahead (it passes during the history: from then on the key may be found absent, and a key seen absent never comes back without a write), hostile Version fields and stale / made-up CAS versions; flavours: mixed, racing creators, racing CAS on one version) recorded at the client boundary and checked (1) by porcupine against the per-key sequential model, (2) for outcomes outside the documented set, (3) for injectivity of version -> write, (4) Redis, at the quiescent end of every history: records without an expiry survive, unchanged, a jump of the server clock past the expiries of the other writes (the expiry of one write must not stick to another). The whole workload is repeated (half as many histories) by a second pass built without the race detector, whose slow-down changes the interleavings. distinct = distinct outcome words (client, operation, key, outcome in call order) among histories in which operations of different clients on one key really overlapped in time")
 	run.Assume("Redis backend runs against the in-process miniredis server with random per-command delays injected by its pre-hook")
 	run.Assume("the version reported together with ErrExist is not judged here (C03)")
 
@@ -513,6 +513,9 @@ func TestCheck(t *testing.T) {
 	}
 
 	nPer := run.Pick(3000, 150000)
+	if os.Getenv("VERIF_PASS") == "norace" { // second pass, built without the race detector: other timing, same monitors
+		nPer /= 2
+	}
 	var wg sync.WaitGroup
 	var mu sync.Mutex
 	words := map[uint64]struct{}{}
